@@ -118,7 +118,7 @@ func c13Run(raw json.RawMessage) interface{} {
 		return map[string]interface{}{"bad_case": err.Error()}
 	}
 	res := map[string]interface{}{"bases": f.bases, "sizes": f.sizes, "fsize": len(f.raw)}
-	bg, err := bgzf.NewReader(bytes.NewReader(f.raw), c.Rd)
+	bg, err := bgzf.NewReader(sourceFor(f.raw), c.Rd)
 	if err != nil {
 		res["new_err"] = c02Err(err)
 		return res
